@@ -71,6 +71,7 @@ class Target:
         self.native_call = None
         self.max_paths = 20000
         self.timeout_ms = 10000
+        self.cvc5_ms = None
         self.cover = []
         self.exc_any_ok = False
         self.post_state = None
@@ -120,7 +121,7 @@ class Target:
 CVC5 = '/usr/bin/cvc5'
 
 
-def check_unsat(assertions, timeout_ms=10000, want_model=True, seed=0):
+def check_unsat(assertions, timeout_ms=10000, want_model=True, seed=0, cvc5_ms=None):
     """returns (status, backend, model_or_None, seconds); status in unsat|sat|unknown"""
     t0 = time.time()
     s = z3.Solver()
@@ -137,7 +138,7 @@ def check_unsat(assertions, timeout_ms=10000, want_model=True, seed=0):
     # fallback: cvc5 on the same SMT-LIB text
     try:
         txt = s.to_smt2()
-        st = run_cvc5(txt, timeout_ms * 6)
+        st = run_cvc5(txt, cvc5_ms or timeout_ms * 6)
     except Exception as e:  # pragma: no cover
         st = 'unknown'
     dt = time.time() - t0
@@ -242,7 +243,7 @@ def path_sig(p: Path):
     return ''.join(('T' if d else 'F') for _, d in p.trace)
 
 
-def verify(t: Target, seed=0, prefixes=None, budget=None):
+def verify(t: Target, seed=0, prefixes=None, budget=None, budget_s=None):
     """Returns a JSON-able dict with obligations, violations, undecided."""
     t0 = time.time()
     res = {'target': t.name, 'props': t.props, 'obligations': [], 'paths': 0, 'undecided': [], 'violations': [],
@@ -260,7 +261,7 @@ def verify(t: Target, seed=0, prefixes=None, budget=None):
     npaths = 0
     res['leftover'] = []
     while worklist:
-        if budget is not None and npaths >= budget:
+        if (budget is not None and npaths >= budget) or (budget_s is not None and npaths >= 1 and time.time() - t0 > budget_s):
             res['leftover'] = worklist
             break
         prefix = worklist.pop()
@@ -338,7 +339,7 @@ def verify(t: Target, seed=0, prefixes=None, budget=None):
         res['covers'] += 1
         sig = path_sig(p)
         for ob in p.obligs:
-            st, be, model, dt = check_unsat(ob.pc + [z3.Not(ob.goal)], t.timeout_ms, seed=seed)
+            st, be, model, dt = check_unsat(ob.pc + [z3.Not(ob.goal)], t.timeout_ms, seed=seed, cvc5_ms=t.cvc5_ms)
             res['solver_s'] += dt
             rec = {'name': ob.name, 'path': sig, 'line': ob.line, 'status': {'unsat': 'discharged', 'sat': 'violated', 'unknown': 'unknown'}[st],
                    'backend': be, 's': round(dt, 4)}
@@ -587,6 +588,10 @@ def contract_model(callee: 'Target', result_type, argnames, raises=()):
             I.p.counter += 1
             if I.p.choose(z3.Bool(f'callee_raises!{ec.__name__}!{I.p.counter}')):
                 raise PyRaise(ExcVal(ec))
+        for rq in callee.requires:
+            f = SX.func_from_pyfunc(rq.fn, spec=True)
+            if all(a.arg in env for a in f.node.args.args):
+                I.p.oblige(f'call.{callee.qualname}.requires.{rq.name}', eval_clause(I, rq.fn, env), info={'clause': None, 'env': {}, 'outcome': ('call',)})
         r = fresh_of(I, result_type, 'ret_' + callee.qualname.split('.')[-1])
         env['result'] = r
         env['old'] = dict(env)
